@@ -1,4 +1,123 @@
-import LabreaModel.Eval
+/-
+  C04 — Option resolution: present key wins (even falsy), else default, else error; domains;
+  namespaces; Option.set.
+
+  `optionOp` is the model of `Option.evaluate/validate/keys/explain` (LabreaModel/Eval.lean); `run` is any
+  interpretation of the children (`ev env n` in particular).  Values are arbitrary `V`: `none`, `false`,
+  `0`, `""`, `[]`, `{}` are ordinary constructors, so "even falsy" needs no special case in the
+  statements — the tie to the code is where it matters (C04's correspondence sweep).
+-/
+import LabreaModel.MonadLemmas
+import LabreaModel.MixLemmas
 namespace Labrea
-theorem c04_placeholder : True := trivial
+
+variable (env : Env) (run : Run) (n id : Nat) (key : String) (o : V)
+
+/-- **present_wins.** Whenever the key is present the Option yields the stored value, resolved against the
+    same options — whatever the value is (falsy ones included) and whatever the default is. -/
+theorem option_present_wins (self : Expr) (dflt : Option Expr) (raw v : V) (rd : List String) (s : St)
+    (hk : getDotted key o = .found raw) (hr : resolveR n raw o = some (.ok v, rd)) :
+    ∃ s', optionOp env run n self id key dflt Option.none .evaluate o s = some (.ok v, s') := by
+  simp [optionOp, readKey, resolveM, bind_run, hk, hr, emitAll_run]
+
+/-- a present value without templates is returned as it is -/
+theorem option_present_plain (self : Expr) (dflt : Option Expr) (raw : V) (s : St)
+    (hk : getDotted key o = .found raw) (hr : resolveR n raw o = some (.ok raw, [])) :
+    ∃ s', optionOp env run n self id key dflt Option.none .evaluate o s = some (.ok raw, s') :=
+  option_present_wins env run n id key o self dflt raw raw [] s hk hr
+
+/-- the default is not even looked at when the key is present (laziness of defaults) -/
+theorem option_present_ignores_default (self : Expr) (d1 d2 : Option Expr) (dom : Option Expr) (raw : V) (s : St)
+    (hk : getDotted key o = .found raw) :
+    optionOp env run n self id key d1 dom .evaluate o s = optionOp env run n self id key d2 dom .evaluate o s := by
+  simp [optionOp, readKey, bind_run, hk]
+
+/-- **absent_default.** Only when the key is absent is the default evaluated — against the same options. -/
+theorem option_absent_default (self d : Expr) (s : St) (hk : getDotted key o = .keyErr) :
+    optionOp env run n self id key (some d) Option.none .evaluate o s =
+      ((do let v ← run .evaluate d o; emit (.typeCheck id); pure v) : M V) { s with events := .read key :: s.events } := by
+  simp [optionOp, readKey, bind_run, hk]
+
+/-- **absent_no_default.** Absent and no default: a missing-key error naming the key, with the Option as source. -/
+theorem option_absent_no_default (self : Expr) (dom : Option Expr) (s : St) (hk : getDotted key o = .keyErr) :
+    optionOp env run n self id key Option.none dom .evaluate o s =
+      some (.error [{ cls := .keyNotFound, src := id, key := key }], { s with events := .read key :: s.events }) := by
+  simp [optionOp, readKey, bind_run, hk, keyNotFound]
+
+/-- a present value that references a missing key fails with THAT key (not with the Option's own, and not
+    by falling back to the default) -/
+theorem option_dangling_reference (self : Expr) (dflt dom : Option Expr) (raw : V) (k : String) (rd : List String) (s : St)
+    (hk : getDotted key o = .found raw) (hr : resolveR n raw o = some (.error (.key k), rd)) :
+    ∃ s', optionOp env run n self id key dflt dom .evaluate o s =
+      some (.error ({ cls := .keyNotFound, src := id, key := k } :: errOther "KeyError"), s') := by
+  simp [optionOp, readKey, resolveM, bind_run, hk, hr, keyNotFound, emitAll_run]
+
+/-- **domain_never_violated** (container domains). If an Option with a container domain yields `v`,
+    then `v` is a member of the domain as evaluated under the same options. -/
+theorem option_domain_container (self de : Expr) (dflt : Option Expr) (s s' : St) (v : V)
+    (h : optionOp env run n self id key dflt (some de) .evaluate o s = some (.ok v, s')) :
+    ∃ s1 s2 dv, run .evaluate de o s1 = some (.ok dv, s2) ∧
+      (isCallable dv = true ∨ isContainer dv = false ∨ pyIn v dv = some true) := by
+  simp only [optionOp] at h
+  rw [bind_run] at h
+  split at h
+  · simp at h
+  · simp at h
+  · rename_i v0 s0 _
+    simp only [bind_run, emit_run] at h
+    cases hd : run .evaluate de o { s0 with events := Event.typeCheck id :: s0.events } with
+    | none => simp [hd] at h
+    | some p =>
+      obtain ⟨r, s2⟩ := p
+      cases r with
+      | error e => simp [hd] at h
+      | ok dv =>
+        refine ⟨_, s2, dv, hd, ?_⟩
+        simp only [hd] at h
+        by_cases hc : isCallable dv = true
+        · exact Or.inl hc
+        · by_cases hq : isContainer dv = true
+          · right; right
+            simp only [hc, hq] at h
+            cases hp : pyIn v0 dv with
+            | none => simp [hp] at h
+            | some b =>
+              cases b with
+              | false => simp [hp] at h
+              | true =>
+                simp [hp] at h
+                obtain ⟨hv, _⟩ := h
+                subst hv; exact hp
+          · right; left; simpa using hq
+
+/-- **set_get.** `Option(k).set(o, v)` (= `mix(o, set_dotted_key(k, v, {}))`) yields a dictionary in which the
+    key evaluates to `v`, for every non-mapping `v` and every key without index segments. -/
+theorem option_set_get (v : V) (hv : v.isDict = false) (p : List String) (hp : p ≠ []) (hn : NoIdx p)
+    (d : List (String × V)) :
+    ∃ sub, setPath p v [] = some sub ∧ walk p (mix (.dict d) (.dict sub)) = .found v := by
+  obtain ⟨sub, h1, h2⟩ := set_get v hv p hp hn d
+  exact ⟨sub, h1, by simpa [mix] using h2⟩
+
+/-- all other top-level keys are intact after `Option.set` -/
+theorem option_set_frame (v : V) (k k' : String) (rest : List String) (hne : k' ≠ k) (d sub : List (String × V))
+    (hs : setPath (k :: rest) v [] = some sub) : alookup k' (mixObj d sub) = alookup k' d :=
+  set_frame_top v (k :: rest) k k' rest rfl hne d sub hs
+
+/-- `Option.set` with an index segment does NOT round-trip (known finding F17): the list index becomes a
+    section keyed by the digit string -/
+theorem option_set_index_segment_breaks :
+    (setPath ["L", "0"] (.int 9) []).map (fun sub => walk ["L", "0"] (mix (.dict [("L", .list [.int 1, .int 2])]) (.dict sub)))
+      = some Lk.keyErr := by decide +kernel
+
+/-- a namespace's `keys` / `explain` are the unions over its members' (fully-qualified) Options -/
+theorem namespace_keys_union (members : List (String × Expr)) (op : Op) (h : op = .keys ∨ op = .explain) :
+    namespaceOp run n id key members op o = unionOver run op (members.map Prod.snd) o := by
+  rcases h with h | h <;> subst h <;> simp [namespaceOp]
+
+/-! ### non-vacuity -/
+example : getDotted "S.X" (.dict [("S", .dict [("X", .int 0)])]) = .found (.int 0) := by decide +kernel
+example : resolveR 3 (.int 0) (.dict []) = some (.ok (.int 0), []) := by rfl
+example : getDotted "S.X" (.dict [("S", .dict [])]) = .keyErr := by decide +kernel
+example : NoIdx ["S", "X"] := by intro seg h; simp at h; rcases h with h | h <;> subst h <;> decide +kernel
+
 end Labrea
